@@ -71,6 +71,25 @@ _SIGS = {'find': (1, 2, ()), 'index': (1, 2, ()),
 def str_method(it, recv, name, args, kwargs):
     ctx = it.ctx
     e = recv.e
+    if name in ('strip', 'rstrip', 'lstrip') and all(
+            a is VNone or is_concrete_str(a) for a in args):
+        # deterministic: one result per (method, subject, character set) and
+        # path - two calls on the same text denote the same string
+        cache = ctx.ghost.setdefault('strip_cache', {})
+        key = (name, e.get_id(), tuple(
+            None if a is VNone else concrete_str(a) for a in args))
+        hit = cache.get(key)
+        if hit is not None:
+            return hit[0]
+        r = _str_method(it, recv, name, args, kwargs)
+        cache[key] = (r, e)          # owns its key
+        return r
+    return _str_method(it, recv, name, args, kwargs)
+
+
+def _str_method(it, recv, name, args, kwargs):
+    ctx = it.ctx
+    e = recv.e
     sig = _SIGS.get(name)
     if sig is not None and not (
             sig[0] <= len(args) <= sig[1] and set(kwargs) <= set(sig[2])):
